@@ -312,7 +312,7 @@ where
         hists.push(vec![(5, w), (5, w / 2), (3, w + 30)]);
     }
     let deltas: Vec<f64> = if ctx.tier.thorough() { vec![0.6, 0.8, 0.95] } else { vec![0.6, 0.9] };
-    let seeds: Vec<u64> = if ctx.tier.thorough() { vec![1, 2, 3] } else { vec![1] };
+    let seeds: Vec<u64> = if ctx.tier.thorough() { vec![1, 2] } else { vec![1] };
     let mut cfgs = vec![];
     for ti in 0..tg.len() {
         if f32s && !(ti == 0 || ti == 3 || ti == 5) {
@@ -323,6 +323,10 @@ where
                 for h in hists.iter() {
                     // NaN-region targets: single runs and the long warm-ups only in the quick tier
                     if ti >= 3 && !ctx.tier.thorough() && h.len() == 2 {
+                        continue;
+                    }
+                    // thorough tier: three-call histories on the regular targets with f64 scalars only; the longest warm-ups for one seed
+                    if ctx.tier.thorough() && ((h.len() == 3 && h.iter().all(|r| r.1 < 50) && (ti >= 3 || f32s)) || (h.iter().any(|r| r.1 >= 2000) && seed != 1)) {
                         continue;
                     }
                     // quick tier: the 600-transition warm-ups only where an adaptation runaway would show (NaN-region targets)
